@@ -132,6 +132,22 @@ M(['C01', 'C02'], 'factory-partial-drops-relative-epsilon', DS, "      precision
 M(['C01', 'C02'], 'factory-partial-constant-ridge', DS, "      ridge_epsilon=matrix_epsilon,\n      precision=precision,", "      ridge_epsilon=1e-6,\n      precision=precision,")
 TW(['C01', 'C02'], 'twin-eigh-dispatch-keywords', DS, "                                        error_tolerance, precision,\n                                        relative_matrix_epsilon, padding_start,\n                                        prev)",
   "                                        error_tolerance, precision=precision,\n                                        prev=prev, padding_start=padding_start,\n                                        relative_matrix_epsilon=relative_matrix_epsilon)")
+# --- regularised input, exact ridge, epilogue predicate (found by tools/mutate.py)
+M('C01', 'newton-epilogue-tests-one', DS, "    resultant_mat_h = jnp.where(padding_start == 0, 0.0, resultant_mat_h)\n", "    resultant_mat_h = jnp.where(padding_start == 1, 0.0, resultant_mat_h)\n")
+M('C01', 'eigh-epilogue-error-tests-one', DS, "    val = jnp.where(padding_start == 0, 0.0, val)\n    error = jnp.where(padding_start == 0, 0.0,\n                      error_metrics.inverse_pth_root_errors)\n    error_metrics = error_metrics.replace(inverse_pth_root_errors=error)\n  val = jnp.asarray(val, orig_dtype)\n  return val, error_metrics\n\n\ndef _low_rank_root(",
+  "    val = jnp.where(padding_start == 0, 0.0, val)\n    error = jnp.where(padding_start == 1, 0.0,\n                      error_metrics.inverse_pth_root_errors)\n    error_metrics = error_metrics.replace(inverse_pth_root_errors=error)\n  val = jnp.asarray(val, orig_dtype)\n  return val, error_metrics\n\n\ndef _low_rank_root(")
+M('C01', 'eigh-ridge-subtracted', DS, "  regularized_input = matrix + ridge_epsilon * identity\n  e, u = jnp.linalg.eigh(regularized_input)\n  # Due to padding, we may have to zero out eigenvalues.\n  if padding_start is not None:\n    e *= jnp.flip(ix)\n  mm = functools.partial(jnp.matmul, precision=precision)",
+  "  regularized_input = matrix - ridge_epsilon * identity\n  e, u = jnp.linalg.eigh(regularized_input)\n  # Due to padding, we may have to zero out eigenvalues.\n  if padding_start is not None:\n    e *= jnp.flip(ix)\n  mm = functools.partial(jnp.matmul, precision=precision)")
+M('C01', 'lowrank-absolute-ridge-doubled', DS, "    max_ev = 1.0\n  ridge_epsilon = ridge_epsilon * jnp.maximum(max_ev, error_tolerance)\n  regularized_input = matrix + ridge_epsilon * identity\n  e, u = jnp.linalg.eigh(regularized_input)\n  # Due to padding, we may have to zero out eigenvalues.\n  if padding_start is not None:\n    e *= jnp.flip(ix)\n  mm = functools.partial(jnp.matmul, precision=jax.lax.Precision.HIGHEST)",
+  "    max_ev = 2.0\n  ridge_epsilon = ridge_epsilon * jnp.maximum(max_ev, error_tolerance)\n  regularized_input = matrix + ridge_epsilon * identity\n  e, u = jnp.linalg.eigh(regularized_input)\n  # Due to padding, we may have to zero out eigenvalues.\n  if padding_start is not None:\n    e *= jnp.flip(ix)\n  mm = functools.partial(jnp.matmul, precision=jax.lax.Precision.HIGHEST)")
+M('C01', 'lowrank-error-sign', DS, "  recovered_e = mm(u.T, mm(regularized_input, u))\n  eig_error = recovered_e - jnp.diag(e)\n  if padding_start is not None:\n    eig_error *= jnp.flip(ix)\n  error = jnp.max(jnp.abs(eig_error))\n  inv_e",
+  "  recovered_e = mm(u.T, mm(regularized_input, u))\n  eig_error = recovered_e + jnp.diag(e)\n  if padding_start is not None:\n    eig_error *= jnp.flip(ix)\n  error = jnp.max(jnp.abs(eig_error))\n  inv_e")
+M('C01', 'newton-ridge-divided', DS, "  ridge_epsilon = ridge_epsilon * jnp.maximum(max_ev, _EPSILON)\n", "  ridge_epsilon = ridge_epsilon / jnp.maximum(max_ev, _EPSILON)\n")
+M('C01', 'lobpcg-reference-ridge-subtracted', DS, "    unconditioned_damped_matrix = original_matrix + ridge_epsilon * identity\n", "    unconditioned_damped_matrix = original_matrix + ridge_epsilon / 2 * identity\n")
+TW('C01', 'twin-eigh-regularised-reordered', DS, "  regularized_input = matrix + ridge_epsilon * identity\n  e, u = jnp.linalg.eigh(regularized_input)\n  # Due to padding, we may have to zero out eigenvalues.\n  if padding_start is not None:\n    e *= jnp.flip(ix)\n  mm = functools.partial(jnp.matmul, precision=precision)",
+  "  regularized_input = identity * ridge_epsilon + matrix\n  e, u = jnp.linalg.eigh(regularized_input)\n  # Due to padding, we may have to zero out eigenvalues.\n  if padding_start is not None:\n    e *= jnp.flip(ix)\n  mm = functools.partial(jnp.matmul, precision=precision)")
+TW('C01', 'twin-epilogue-mirrored', DS, "    resultant_mat_h = jnp.where(padding_start == 0, 0.0, resultant_mat_h)\n", "    resultant_mat_h = jnp.where(0 != padding_start, resultant_mat_h, 0.0)\n")
+
 # ------------------------------------------------------------------ C02
 M('C02', 'momentum-wrong-buffer', DS, "        state.momentum.to_float() * beta1 + w * shampoo_update_with_wd)", "        state.diagonal_momentum.to_float() * beta1 + w * shampoo_update_with_wd)")
 M('C02', 'wd-before-graft-rescale', DS, "    shampoo_update = precond_grad * multiplier\n", "    shampoo_update = (precond_grad + weight_decay * param) * multiplier\n")
@@ -271,6 +287,22 @@ M(['C09', 'C16'], 'oco-row-zero', OCO, "  B = B.at[-1].set(grad_input)", "  B = 
 M(['C09', 'C16'], 'oco-e-not-sqrt', OCO, "  state['e'] = jnp.sqrt(s)\n", "  state['e'] = s\n")
 TW('C09', 'twin-ds-deflate-expanded', DS, "  deflated_eigs = (top_eigs - cutoff) * (top_eigs + cutoff)", "  deflated_eigs = jnp.square(top_eigs) - jnp.square(cutoff)")
 TW('C09', 'twin-sk-tail-commuted', SK, "    tail = axis_state.tail * cov_decay + cutoff**2\n", "    tail = jnp.square(cutoff) + cov_decay * axis_state.tail\n")
+
+# --- guards evaluated at reference / degenerate points (found by tools/mutate.py)
+M('C09', 'fd-root-mask-inverted', DS, "  upshifted_eigs *= deflated_eigs > 0.0\n", "  upshifted_eigs *= deflated_eigs < 0.0\n")
+M('C09', 'fd-root-clamp-inverted', DS, "  upshifted_eigs = jnp.where(upshifted_eigs <= 0, 0.0, upshifted_eigs)\n", "  upshifted_eigs = jnp.where(upshifted_eigs >= 0, 0.0, upshifted_eigs)\n")
+M('C09', 'fd-root-clamp-threshold', DS, "  inverted_eigs = jnp.where(upshifted_eigs <= 0, 0.0, upshifted_eigs**alpha)\n", "  inverted_eigs = jnp.where(upshifted_eigs <= 1, 0.0, upshifted_eigs**alpha)\n")
+M('C09', 'fd-root-zero-guard-strict', DS, "  inverted_eigs = jnp.where(upshifted_eigs <= 0, 0.0, upshifted_eigs**alpha)\n", "  inverted_eigs = jnp.where(upshifted_eigs < 0, 0.0, upshifted_eigs**alpha)\n")
+M('C09', 'fd-const-zero-guard-strict', DS, "  new_const = jnp.where(new_tail <= 0, 0.0, new_tail**alpha)\n", "  new_const = jnp.where(new_tail < 0, 0.0, new_tail**alpha)\n")
+M('C09', 'fd-eigvec-mask-inverted', DS, "  eigvecs *= deflated_eigs > 0  # Don't introduce new directions with 0 eigs.\n", "  eigvecs *= deflated_eigs < 0  # Don't introduce new directions with 0 eigs.\n")
+M('C09', 'fd-padding-mass-rescales', DS, "  eigvecs *= 1 - has_significant_padding\n", "  eigvecs *= 1 + has_significant_padding\n")
+M('C09', 'fd-unsafe-norm-kept', DS, "  safe_normed = (0.99 <= norms) & (norms <= 1.01)\n", "  safe_normed = (0.99 <= norms) | (norms <= 1.01)\n")
+M('C09', 'fd-unsafe-norm-window-misses-one', DS, "  safe_normed = (0.99 <= norms) & (norms <= 1.01)\n", "  safe_normed = (1.99 <= norms) & (norms <= 2.01)\n")
+M('C09', 'fd-safe-division-by-mask', DS, "  eigvecs /= jnp.where(safe_normed, norms, 1.0)\n", "  eigvecs /= jnp.where(safe_normed, norms, 0.0)\n")
+M('C09', 'fd-flag-always-set', DS, "  has_zeros = jnp.any(deflated_eigs <= 0) | jnp.any(new_tail <= 0)\n", "  has_zeros = jnp.any(deflated_eigs >= 0) | jnp.any(new_tail <= 0)\n")
+TW('C09', 'twin-fd-masks-respelled', DS, "  eigvecs *= 1 - has_significant_padding\n  deflated_eigs *= 1 - has_significant_padding\n", "  eigvecs *= jnp.logical_not(has_significant_padding)\n  deflated_eigs *= ~has_significant_padding\n")
+TW('C09', 'twin-fd-retain-zero-eigen-direction', DS, "  eigvecs *= deflated_eigs > 0  # Don't introduce new directions with 0 eigs.\n", "  eigvecs *= deflated_eigs >= 0  # Don't introduce new directions with 0 eigs.\n")
+TW('C09', 'twin-fd-norm-window', DS, "  safe_normed = (0.99 <= norms) & (norms <= 1.01)\n", "  safe_normed = (norms >= 0.995) & (1.005 >= norms)\n")
 
 # ------------------------------------------------------------------ C10
 M('C10', 'pack-const-collides-tail', DS, "  precond = precond.at[0, -1].set(new_const)", "  precond = precond.at[1, -1].set(new_const)")
